@@ -21,7 +21,10 @@ pub trait TimeUntil {
 }
 
 impl TimeUntil for Instant {
+    #[cfg_attr(feature = "verif-hooks", allow(unreachable_code))]
     fn time_until(&self) -> Duration {
+        #[cfg(feature = "verif-hooks")]
+        return self.duration_since(crate::verif_hooks::now());
         self.duration_since(Instant::now())
     }
 }
